@@ -990,6 +990,14 @@ func RuleK6(c *Ctx) {
 		for _, cl := range countedLoops(fn) {
 			if k, ok := cl.tripCount(); ok {
 				ks = append(ks, k)
+			} else if x, isLen := core.IsLenOf(cl.bound); isLen && cl.step == 1 && cl.op == token.LSS {
+				// a loop over a receiver field that was given a fresh slice of constant length just before
+				z, isZ := core.ConstInt(cl.init)
+				if k, ok := freshFieldLen(fn, x, cl.loop.Header); ok && isZ && z == 0 {
+					ks = append(ks, k)
+				} else {
+					ks = append(ks, -1)
+				}
 			} else {
 				ks = append(ks, -1)
 			}
@@ -1014,7 +1022,15 @@ func RuleK6(c *Ctx) {
 			}
 			if sub, ok := core.StripConv(sh.Y).(*ssa.BinOp); ok && sub.Op == token.SUB {
 				if k, ok := core.ConstInt(sub.X); ok {
-					if _, isPhi := core.StripConv(sub.Y).(*ssa.Phi); isPhi {
+					y := core.StripConv(sub.Y)
+					_, isPhi := y.(*ssa.Phi)
+					if inc, isInc := y.(*ssa.BinOp); isInc && inc.Op == token.ADD {
+						// the index of a `for j := range xs` loop: its header phi plus one
+						if one, isOne := core.ConstInt(inc.Y); isOne && one == 1 {
+							_, isPhi = core.StripConv(inc.X).(*ssa.Phi)
+						}
+					}
+					if isPhi {
 						ks = append(ks, k)
 					}
 				}
